@@ -233,13 +233,13 @@ def finish(prop: str, tier: str, seed: int, audit: LeanAudit, res: Result, t0: f
         print(f"KNOWN-FINDING: property={prop} {k['what']}")
     rc = 0
     if violations:
-        rdir = VERIF / "replays" / prop
+        rdir = Path(os.environ.get("VERIF_REPLAY_DIR", VERIF / "replays")) / prop
         rdir.mkdir(parents=True, exist_ok=True)
         # one replay file per run; the first violation with a failing input leads
         violations.sort(key=lambda d: not d.get("failing_input"))
         path = rdir / f"{tier}_{seed}.json"
         path.write_text(json.dumps({"property": prop, "tier": tier, "seed": seed,
-                                    "replay_cmd": f"./check {prop} --replay {path.relative_to(VERIF)}",
+                                    "replay_cmd": f"./check {prop} --replay {path}",
                                     "violations": violations[:20]}, indent=1, default=str))
         lead = violations[0]
         suffix = "" if lead.get("failing_input") else " no-failing-input-found"
@@ -260,6 +260,8 @@ def finish(prop: str, tier: str, seed: int, audit: LeanAudit, res: Result, t0: f
         "wall_s": round(time.time() - t0, 2),
         "violations": len(violations),
     }
-    (VERIF / "evidence").mkdir(exist_ok=True)
-    (VERIF / "evidence" / f"{prop}.json").write_text(json.dumps(ev, indent=1, default=str))
+    # seeded-change evaluations (harness/seedtest.py) redirect evidence so that the committed files always describe /repo itself
+    evdir = Path(os.environ.get("VERIF_EVIDENCE_DIR", VERIF / "evidence"))
+    evdir.mkdir(parents=True, exist_ok=True)
+    (evdir / f"{prop}.json").write_text(json.dumps(ev, indent=1, default=str))
     return rc
